@@ -15,6 +15,7 @@ import Matreex.Model.Convert
 import Matreex.Gen.Macros
 import Matreex.Model.Eq
 import Matreex.Model.Index
+import Matreex.Model.History
 import Matreex.Model.Effects
 import Driver.Fmt
 
@@ -227,13 +228,12 @@ def stepHist (w : World) (ws : List String) : Option (World × String) :=
   | ["poke", r, i, j, payload] => do
     -- `*m.get_mut((i, j))? = element`
     let r ← r.toNat?; let i ← i.toNat?; let j ← j.toNat?
+    -- (`Matrix.setAt` of `Model/History.lean`: the step function of `History.Op.setAt`)
     let m ← w.get r
-    match m.getIdx i j with
+    match m.setAt i j payload with
     | .error e => pure (w, faultStr e)
-    | .ok (.error e) => pure (w, "err " ++ e.name ++ " | " ++ stStr m)
-    | .ok (.ok k) =>
-      let m' := { m with data := m.data.setIfInBounds k payload }
-      pure (w.set r (some m'), "ok | " ++ stStr m')
+    | .ok (.error e, _) => pure (w, "err " ++ e.name ++ " | " ++ stStr m)
+    | .ok (.ok (), m') => pure (w.set r (some m'), "ok | " ++ stStr m')
   | ["display", r] => do
     let r ← r.toNat?
     let m ← w.get r
